@@ -68,9 +68,10 @@ def check(ctx, case):
 		args += ['-c', case['cores']]
 	# query side
 	if case['qkind'] == 'files':
-		for g in qs:
-			args += ['-q', g['path']]
-		qk, qtok = 'f', [str(g['path']) for g in qs]
+		qpaths = [(g['link'] if (case.get('links') and 'link' in g) else g['path']) for g in qs]
+		for qp in qpaths:
+			args += ['-q', qp]
+		qk, qtok = 'f', [str(qp) for qp in qpaths]
 	elif case['qkind'] == 'list':
 		args += ['--ql', w.listfile(qs, 'ql.txt', blank_lines=case.get('blank')), '--qdir', w.qdir]
 		qk, qtok = 'f', [g['rel'] for g in qs]
@@ -80,9 +81,10 @@ def check(ctx, case):
 		qk, qtok = 's', ids
 	# reference side
 	if case['rkind'] == 'files':
-		for g in rs:
-			args += ['-r', g['path']]
-		rk, rtok = 'f', [str(g['path']) for g in rs]
+		rpaths = [(g['link'] if (case.get('links') and 'link' in g) else g['path']) for g in rs]
+		for rp in rpaths:
+			args += ['-r', rp]
+		rk, rtok = 'f', [str(rp) for rp in rpaths]
 	elif case['rkind'] == 'list':
 		args += ['--rl', w.listfile(rs, 'rl.txt'), '--rdir', (w.namesake_dir if any(g.get('path', '') and str(g['path']).startswith(str(w.namesake_dir)) for g in rs) else w.qdir)]
 		rk, rtok = 'f', [g['rel'] for g in rs]
@@ -179,7 +181,7 @@ def run(ctx):
 						nq = [False] * len(q)
 						nq[i + rng.randint(0, 1)] = True
 					sub({'kind': 'dist', 'qkind': qkind, 'rkind': rkind, 'q': q, 'r': r, 'explicit': explicit, 'cores': rng.choice([None, 1, 2, 4]),
-					     'blank': rng.random() < 0.3, 'namesake_refs': ns, 'namesake_queries': nq, 'decoy_cwd': rng.random() < 0.5, 'db2': rng.random() < 0.5}, 'dist')
+					     'blank': rng.random() < 0.3, 'namesake_refs': ns, 'namesake_queries': nq, 'decoy_cwd': rng.random() < 0.5, 'db2': rng.random() < 0.5, 'links': rng.random() < 0.3}, 'dist')
 	finally:
 		if _w is not None:
 			_w.cleanup()
